@@ -128,6 +128,13 @@ func TestVerifC12_fp25519(t *testing.T) {
 		f.CheckUn(r, op, all, true)
 	}
 	f.CheckPred(r, bf.Pred{Name: "IsZero", Do: func(x bf.Elem) bool { return fp.IsZero(x.(*fp.Elt)) }, Ref: bf.RefIsZero}, all)
+	{
+		p := bf.P25519
+		b := []bf.Operand{{V: new(big.Int), Name: "0"}, {V: big.NewInt(1), Name: "1"}, {V: new(big.Int).Sub(p, big.NewInt(1)), Name: "p-1"}, {V: bf.Pseudo("fp25519-pred", 0, p), Name: "pseudo0"}, {V: bf.Pseudo("fp25519-pred", 1, p), Name: "pseudo1"}}
+		b = append(b, bf.Operand{V: p, Name: "p"}, bf.Operand{V: new(big.Int).Lsh(p, 1), Name: "2p"}, bf.Operand{V: new(big.Int).Add(p, big.NewInt(1)), Name: "p+1"}, bf.Operand{V: new(big.Int).Sub(bf.Pow2(256), big.NewInt(1)), Name: "2^256-1"})
+		f.CheckBitFlips(r, bf.BitFlip{Coords: 1, Bits: 256, P: p, Limit: bf.Pow2(256), IsZero: func(x bf.Elem) bool { return fp.IsZero(x.(*fp.Elt)) }}, b)
+		r.RequireCounter("fp25519.predicates.one-bit-neighbours", 9*256)
+	}
 	r.RequireCounter("fp25519.IsZero.true", 3) // 0, p, 2p
 
 	// special shapes (pairs x selector / x alias) on the key sub-alphabet: neighbours of 0, p, 2p, 2^255, 2^256 plus a thinned sample of the rest
